@@ -11,6 +11,7 @@ EVERY operation every node that existed before it is compared with its snapshot:
 """
 from __future__ import annotations
 
+import copy
 import dataclasses
 import io
 import itertools
@@ -95,6 +96,9 @@ class FP(ASTNode):
 
     def __len__(self) -> int:  # container-like: falsy while `items` is empty (it may still hold `one`)
         return len(self.items)
+
+    def __iter__(self):  # container-like: iterating over the node yields its `items`
+        return iter(self.items)
 
 
 @dataclass(frozen=True)
@@ -220,6 +224,30 @@ def unary_ops():
         return type(t).as_obj(d)
 
     ops["dict-roundtrip-after-detach"] = unregistered_roundtrip
+
+    # failing loads of documents that mention LIVE nodes at nested levels (an edited copy of a tree that is still in memory):
+    # the top-level id is not registered, the failure sits in the last / first child or in a property of the root
+    def failing_load(where):
+        def run(t):
+            d = copy.deepcopy(t.as_dict())
+            d["id"] = "edited-" + d["id"]
+            kids = [k for k, v in d.items() if isinstance(v, dict) and "id" in v] + [k for k, v in d.items() if isinstance(v, list) and v and isinstance(v[0], dict)]
+            if where == "root-property":
+                d["tag" if "tag" in d else ("v" if "v" in d else "w")] = {"not": "a value"}
+            elif not kids:
+                d["nosuch-but-required"] = 1
+                d.pop("v", None); d["v"] = "x"
+            else:
+                k = kids[-1] if where == "last-child" else kids[0]
+                if isinstance(d[k], list):
+                    d[k][-1 if where == "last-child" else 0] = {"__type": "NoSuchClass", "id": "zzz"}
+                else:
+                    d[k] = {"__type": "NoSuchClass", "id": "zzz"}
+            return type(t).as_obj(d)
+        return run
+
+    for where in ("last-child", "first-child", "root-property"):
+        ops[f"failing-load-{where}"] = failing_load(where)
     ops["hash-repr-str"] = lambda t: (hash(t), repr(t), str(t), t == t, t != t)
 
     def rich_(t):
